@@ -10,14 +10,14 @@ PROPERTY = "C13"
 RULE = (
     "configurations = means x variance pairs x correlations (both sides of every branch threshold "
     "0.3/0.75/0.925, up to |r|=0.99999) x entry points (gaussian, bvn_cdf, sbvn_cdf, norm_cdf, uniform); "
-    "each evaluated on the full 11x11 grid of standardised points {-8..8}^2 and compared point by "
+    "each evaluated on the full 17x17 grid of standardised points {-1000,-200,-40,-8..8,40,200,1000}^2 (far tails included) and compared point by "
     "point with Plackett's-formula reference; CDF axioms (range, monotone, rectangle mass, tails) on "
     "every grid cell. state = one configuration; transition = one kernel call; non-trivial = "
     "correlated configuration (r != 0) or uniform box cut by the grid."
 )
 ASSUMPTIONS = ["reference: Plackett integral by scipy.integrate.quad (oracles/bvn.py), accuracy ~1e-13"]
-H_Q = [-8.0, -4.0, -2.0, -1.0, -0.5, 0.0, 0.3, 1.0, 2.0, 4.0, 8.0]
-H_T = [-12.0, -8.0, -6.0, -4.0, -3.0, -2.0, -1.5, -1.0, -0.5, -0.1, 0.0, 0.1, 0.3, 0.7, 1.0, 1.5, 2.0, 3.0, 4.0, 6.0, 8.0, 12.0]
+H_Q = [-1000.0, -200.0, -40.0, -8.0, -4.0, -2.0, -1.0, -0.5, 0.0, 0.3, 1.0, 2.0, 4.0, 8.0, 40.0, 200.0, 1000.0]
+H_T = [-1e5, -1000.0, -300.0, -100.0, -40.0, -12.0, -8.0, -6.0, -4.0, -3.0, -2.0, -1.5, -1.0, -0.5, -0.1, 0.0, 0.1, 0.3, 0.7, 1.0, 1.5, 2.0, 3.0, 4.0, 6.0, 8.0, 12.0, 40.0, 100.0, 300.0, 1000.0, 1e5]
 H = H_Q
 RS_POS = [0.1, 0.29, 0.3, 0.31, 0.5, 0.74, 0.75, 0.76, 0.9, 0.92, 0.925, 0.93, 0.95, 0.99, 0.999, 0.99999]
 TOL = 1e-7
